@@ -5,15 +5,16 @@
 (* -simulate and for the dot dump that are replayed into the real classes.   *)
 EXTENDS MC_Broker
 
-VARIABLES obs, marks
+VARIABLES obs, pnl, marks
 
-InitObs == Init /\ obs = Observe /\ marks = {}
+InitObs == Init /\ obs = Observe /\ pnl = PnlTotalsOf(PSet, pos) /\ marks = {}
 NextObs ==
   /\ Next
   /\ obs' = ObserveOf(DOMAIN cash', cash', pos')
+  /\ pnl' = PnlTotalsOf(DOMAIN cash', pos')
   /\ marks' = IF call'.op = "update" /\ err' = "ok" THEN ExpectedMarks
               ELSE IF call'.op = "pf_mark" /\ err' = "ok" /\ call'.asset \in DOMAIN pos[call'.pid]
                    THEN { << call'.pid, call'.asset, call'.px >> }
               ELSE {}
-SpecObs == InitObs /\ [][NextObs]_<< vars, obs, marks >>
+SpecObs == InitObs /\ [][NextObs]_<< vars, obs, pnl, marks >>
 =============================================================================
